@@ -197,6 +197,8 @@ func fsParseWhere(w string) ([][]fsAtom, error) {
 		for _, a := range strings.Split(part, " AND ") {
 			a = strings.TrimSpace(a)
 			switch {
+			case strings.HasSuffix(a, " IS NULL"):
+				group = append(group, fsAtom{strings.TrimSuffix(a, " IS NULL"), "ISNULL", 0})
 			case strings.HasSuffix(a, " IS ?"):
 				group = append(group, fsAtom{strings.TrimSuffix(a, " IS ?"), "IS", 1})
 			case strings.HasSuffix(a, " = ?"):
@@ -250,6 +252,10 @@ func fsMatch(cond [][]fsAtom, args []driver.Value, row map[string]driver.Value) 
 			switch a.op {
 			case "=":
 				if !fsEq(row[a.col], vals[0]) {
+					ok = false
+				}
+			case "ISNULL":
+				if row[a.col] != nil {
 					ok = false
 				}
 			case "IS":
